@@ -289,10 +289,9 @@ func (idx *IVFIndex) Add(vector VectorNode) error {
 
 // Remove performs soft delete using roaring bitmap.
 //
-// CONCURRENCY OPTIMIZATION:
-// - Uses read lock first (cheaper) to check if node exists
-// - Only acquires write lock for the actual bitmap modification
-// - Minimizes write lock contention
+// CONCURRENCY:
+// - Checks if node exists and marks it deleted in ONE write-locked critical section
+// - Releasing the lock in between lets two concurrent Removes of an ID both succeed
 //
 // SOFT DELETE MECHANISM:
 // Instead of immediately removing from inverted lists (expensive O(n)),
@@ -311,14 +310,15 @@ func (idx *IVFIndex) Add(vector VectorNode) error {
 //
 // Time Complexity: O(n) for existence check + O(log n) for bitmap operation
 //
-// Thread-safety: Uses read lock for validation, write lock for modification
+// Thread-safety: Acquires exclusive lock for validation and modification
 func (idx *IVFIndex) Remove(vector VectorNode) error {
 	id := vector.ID()
 
 	// ════════════════════════════════════════════════════════════════════════
-	// STEP 1: CHECK EXISTENCE (READ LOCK - CHEAPER)
+	// STEP 1: CHECK EXISTENCE (WRITE LOCK - HELD UNTIL THE BITMAP UPDATE)
 	// ════════════════════════════════════════════════════════════════════════
-	idx.mu.RLock()
+	idx.mu.Lock()
+	defer idx.mu.Unlock()
 	exists := false
 	for _, list := range idx.lists {
 		for _, v := range list {
@@ -332,9 +332,8 @@ func (idx *IVFIndex) Remove(vector VectorNode) error {
 		}
 	}
 	alreadyDeleted := idx.deletedNodes.Contains(id)
-	idx.mu.RUnlock()
 
-	// Fast-fail validation outside of write lock
+	// Fast-fail validation before the bitmap is touched
 	if !exists {
 		return fmt.Errorf("vector with ID %d not found", id)
 	}
@@ -343,11 +342,9 @@ func (idx *IVFIndex) Remove(vector VectorNode) error {
 	}
 
 	// ════════════════════════════════════════════════════════════════════════
-	// STEP 2: MARK AS DELETED (WRITE LOCK - ONLY FOR BITMAP UPDATE)
+	// STEP 2: MARK AS DELETED (SAME CRITICAL SECTION)
 	// ════════════════════════════════════════════════════════════════════════
-	idx.mu.Lock()
 	idx.deletedNodes.Add(id)
-	idx.mu.Unlock()
 
 	return nil
 }
